@@ -227,6 +227,11 @@ impl<T> Drop for Drain<'_, T> {
         if T::IS_ZST {
             // ZSTs have no identity, so we don't need to move them around, we only need to drop the correct amount.
             // this can be achieved by manipulating the slice length instead of moving values out from `iter`.
+            //
+            // The elements remaining in `iter` are dropped by `truncate` below, so `iter` must not drop them again
+            // (neither on return nor when unwinding out of `truncate`).
+            let iter = mem::ManuallyDrop::new(iter);
+
             unsafe {
                 let old_len = self.slice.len();
                 non_null::set_len(self.slice, old_len + iter.len() + self.tail_len);
